@@ -32,13 +32,23 @@ pub fn run_and_judge(cfg: &RunCfg, run_no: u32) -> (RunRecord, Vec<Finding>, Fac
                     })
                     .sum::<usize>()
                     + rec.seq_items.as_ref().map(|v| v.len()).unwrap_or(0);
+                // elements the caller skipped with nth() may or may not have been cloned
+                // (std's adaptors are free to do either)
+                let skipped: usize = rec
+                    .calls
+                    .iter()
+                    .map(|c| match &c.res {
+                        Res::Chunk { skipped, .. } => *skipped,
+                        _ => 0,
+                    })
+                    .sum();
                 let clones: u32 = rec.ledger.clones.iter().sum();
-                if clones as usize != consumed {
+                if (clones as usize) < consumed || clones as usize > consumed + skipped {
                     findings.push(Finding {
                         prop: "C13".into(),
                         class: "clone-count".into(),
                         msg: format!(
-                            "{clones} clones were made for {consumed} elements handed to callers"
+                            "{clones} clones were made for {consumed} elements handed to callers (and {skipped} skipped with nth)"
                         ),
                     });
                 }
@@ -65,6 +75,7 @@ fn res_equal(a: &Res, b: &Res) -> bool {
                 lens: l1,
                 exhausted: e1,
                 impossible: m1,
+                skipped: s1,
             },
             Res::Chunk {
                 begin: b2,
@@ -73,9 +84,11 @@ fn res_equal(a: &Res, b: &Res) -> bool {
                 lens: l2,
                 exhausted: e2,
                 impossible: m2,
+                skipped: s2,
             },
         ) => {
-            b1 == b2
+            s1 == s2
+                && b1 == b2
                 && a1 == a2
                 && l1 == l2
                 && e1 == e2
